@@ -39,6 +39,10 @@ def make(ctx, cls, k):
     rng = ctx.rng
     n = [0, 1, rng.randint(2, 8)][k % 3] if k % 7 else rng.randint(2, 8)
     ts = sorted(rng.sample(range(0, 60), n))
+    if k % 4 == 2 and n >= 2:
+        ts[1] = ts[0]                      # two samples at one instant (distinct data rows)
+        if n >= 4:
+            ts[-1] = ts[-2]
     st, en = gen.rand_canonical(rng, 3, 64)
     if not st or k % 2 == 0:
         st, en = [min(ts + [0])], [max(ts + [1]) + 1]
